@@ -87,11 +87,11 @@ UNMERGED_OPS = [
 ]
 
 
-def make(plain: bytes, nonce: bytes, nonce_offset: int):
+def make(plain: bytes, nonce: bytes, nonce_offset: int, size_ok: bool = True):
     from dissect.cobaltstrike.xordecode import XorEncodedFile
 
     stub = b"\x90" * nonce_offset
-    blob = xorenc.encode(plain, nonce, stub)
+    blob = xorenc.encode(plain, nonce, stub, size_ok=size_ok)
     return XorEncodedFile(io.BytesIO(blob), nonce_offset=nonce_offset), io.BytesIO(plain)
 
 
@@ -157,7 +157,10 @@ def classify(op, mis):
 def chunk_graph(chunk, acc):
     n, no = chunk["len"], chunk["nonce_offset"]
     ops = ops_for(n)
-    for nonce in NONCES if n <= 32 else NONCES[2:]:
+    for nonce in (NONCES if n <= 32 else NONCES[2:]) + ((b"SIZE",) if n in (0, 5, 8, 13) else ()):
+        # the pseudo nonce b"SIZE" marks an instance whose size field claims 7 bytes more than are present: the view
+        # is a file over the bytes that are there
+        size_ok = nonce != b"SIZE"
         plain = lcg(n, acc.seed + n) if n else b""
         # BFS over states; state = reference cursor; path = shortest history reaching it
         seen = {0: ()}
@@ -168,7 +171,7 @@ def chunk_graph(chunk, acc):
                 hist = seen[pos]
                 acc.states += 1
                 for op in ops:
-                    xf, ref = make(plain, nonce, no)
+                    xf, ref = make(plain, nonce, no, size_ok)
                     bad_prefix = False
                     for h in hist:
                         m, _, _ = step_compare(xf, ref, h)
@@ -185,7 +188,7 @@ def chunk_graph(chunk, acc):
                     if mis:
                         acc.fail(
                             classify(op, mis),
-                            {"kind": "hist", "plain": plain.hex(), "nonce": nonce.hex(), "nonce_offset": no, "history": [list(h) for h in hist] + [list(op)]},
+                            {"kind": "hist", "plain": plain.hex(), "nonce": nonce.hex(), "nonce_offset": no, "size_ok": size_ok, "history": [list(h) for h in hist] + [list(op)]},
                             mis[2],
                             mis[1],
                             note=mis[0],
@@ -374,7 +377,7 @@ def run_chunk(chunk, acc):
 def replay(case):
     if case["kind"] == "hist":
         plain, nonce = unhx(case["plain"]), unhx(case["nonce"])
-        xf, ref = make(plain, nonce, case["nonce_offset"])
+        xf, ref = make(plain, nonce, case["nonce_offset"], case.get("size_ok", True))
         obs, exp = [], []
         bad = None
         for op in case["history"]:
